@@ -173,8 +173,37 @@ def o7(tier):
     return memobs.find_message_scoped(tier, 'O7', 'O7')
 
 
+@guard
+def o8(tier):
+    """the storage wrappers of mdk-core hand their argument to the backend unchanged"""
+    ob = Ob('O8', 'MDK::save_message_record / save_processed_message_record / save_group_record: the record given to the storage backend is the argument itself, no field re-written on the way '
+                  '(every send and receive path stores messages through save_message_record: a clamp or normalisation there makes the stored created_at / content differ from what the id commits to)',
+            pure=C.PURE_MLS)
+    n = 0
+    for fn, write, ty in (('save_message_record', 'save_message', 'mdk_storage_traits::messages::types::Message'),
+                          ('save_processed_message_record', 'save_processed_message', 'mdk_storage_traits::messages::types::ProcessedMessage'),
+                          ('save_group_record', 'save_group', 'mdk_storage_traits::groups::types::Group')):
+        f = ob.fn(CORE, 'messages::<impl MDK<Storage>>::' + fn) if False else ob.fn(CORE, fn)
+        paths = ob.explore(f, [Opaque('self', '&MDK<Storage>'), Opaque('record', ty)])
+        for p in paths:
+            if p.kind == 'panic':
+                ob.require(False, f'O8/{fn}/panic', p.msg, p); continue
+            n += 1
+            ws = [e for e in p.trace if e.short.split('::')[-1] == write]
+            if not ob.require(len(ws) == 1, f'O8/{fn}/writes', f'{fn} performs {len(ws)} {write} calls', p):
+                continue
+            a = ws[0].args[1]
+            same = isinstance(a, Opaque) and a.uid == 'record' and not a.over
+            ob.require(same, f'O8/{fn}/record-rewritten', f'{fn} stores {a!r} with re-written fields {sorted(getattr(a, "over", {}) or {})} instead of the record it was given', p)
+            okret = ob.eng.prove(p, (p.ret.discriminant() == 0) == (ws[0].ret.discriminant() == 0))[0] if hasattr(p.ret, 'discriminant') and hasattr(ws[0].ret, 'discriminant') else True
+            ob.require(okret, f'O8/{fn}/result', f'{fn} does not report the outcome of the storage write', p)
+    ob.require(n >= 6, 'O8/vacuity', f'{n} paths')
+    ob.r.bounds = {'paths': 'all', 'record': 'arbitrary (opaque)'}
+    return ob.done(cases=n)
+
+
 def run(tier, seed, only=None):
-    obs = [('O1', o1), ('O2', o2), ('O3', o3), ('O4', o4), ('O5', o5), ('O6', o6), ('O7', o7)]
+    obs = [('O1', o1), ('O2', o2), ('O3', o3), ('O4', o4), ('O5', o5), ('O6', o6), ('O7', o7), ('O8', o8)]
     out = []
     for k, f in obs:
         if only and k not in only:
